@@ -36,6 +36,21 @@ def _fit_map(F, ev, R, c, **kw):
     return rules_stats2.rule_fit_map(F, ev, R, c, **kw)
 
 
+def _model_value_setters(F, ev, R, c, **kw):
+    """the part of R-TYPESTATE that says what the builder's value setters store (initial parameters, independent
+    variable): reported under its own rule name, so that typestate-table violations do not alarm other properties"""
+    from core import Report
+    tmp = Report(R.prop if hasattr(R, "prop") else "-")
+    rmb.rule_typestate(F, ev, tmp, c)
+    n = 0
+    for i in tmp.instances:
+        if i["inst"].endswith(":stores-the-given-value") or i["inst"] in ("anchor-missing", "engine"):
+            R.add("R-MODEL-VALUE-SETTERS", c, i["fn"], i["inst"], i["ok"], i["msg"], None)
+            R.instances[-1]["loc"] = i["loc"]
+            n += 1
+    R.floor("R-MODEL-VALUE-SETTERS", c, 2, "initial_parameters, independent_variable")
+
+
 def _chi2(F, ev, R, c, **kw):
     import rules_stats2
     return rules_stats2.rule_chi2(F, ev, R, c, **kw)
@@ -113,6 +128,8 @@ PROPS["C08"]["not_decided"] = ["panics inside nalgebra on dimension mismatch (ex
 PROPS["C01"] = {
     "configs": BOTH,
     "rules": [
+        # "for the current α" / "at every α": every update replaces the cache on every path (no value computed for earlier parameters survives)
+        ("R-NO-HISTORY", rp2.rule_no_history, {}),
         ("R-COEF-SOLVE", rp.rule_coef_solve, {}),
         ("R-DATA-WEIGHT-ONCE", rp2.rule_data_weight_once, {}),
         ("R-ROW-SCALING", rp2.rule_row_scaling, {}),
@@ -153,7 +170,11 @@ PROPS["C02"] = {
 PROPS["C03"] = {
     "configs": BOTH,
     "rules": [
+        # "for the current α" / "at every α": every update replaces the cache on every path (no value computed for earlier parameters survives)
+        ("R-NO-HISTORY", rp2.rule_no_history, {}),
         ("R-KAUFMAN-COL", rp2.rule_kaufman_col, {}),
+        # the C(α) and U the column formula uses are the least-squares coefficients and the left factor of an ACCURATE SVD of W·Φ
+        ("R-COEF-SOLVE", rp.rule_coef_solve, {}),
         ("R-JAC-ABSENT", rules_err.rule_jac_absent, {}),
         ("R-VEC-COLMAJOR", rp.rule_vec_colmajor, {}),
         ("R-SHAPES", shapes.rule_shapes, {"parts": ("set_params", "jacobian")}),
@@ -190,6 +211,8 @@ PROPS["C06"] = {
         ("R-WEIGHT-SITES", rp2.rule_weight_sites, {}),
         ("R-ROW-SCALING", rp2.rule_row_scaling, {}),
         ("R-DATA-WEIGHT-ONCE", rp2.rule_data_weight_once, {}),
+        # a weighted problem exists exactly when the row-scaled one does: one weight per ROW is accepted, for any number of columns
+        ("R-PROBLEM-BUILD-TABLE", rp2.rule_problem_build_table, {}),
         ("R-CTOR-SIBLINGS", rp2.rule_ctor_siblings, {}),
         ("R-SETTER-FRAME", rp2.rule_setter_frame, {}),
         ("R-KAUFMAN-COL", rp2.rule_kaufman_col, {}),
@@ -207,12 +230,16 @@ PROPS["C06"] = {
 PROPS["C07"] = {
     "configs": BOTH,
     "rules": [
+        # "for the current α" / "at every α": every update replaces the cache on every path (no value computed for earlier parameters survives)
+        ("R-NO-HISTORY", rp2.rule_no_history, {}),
         ("R-NO-CONST-PARAM-USE", rp2.rule_no_const_param_use, {}),
         ("R-OBS-RESHAPE", rp2.rule_obs_reshape, {}),
         # every column of a weighted multi-column problem is the single-column problem: the data are W·Y with the row
         # scaling applied to EVERY column (a flat zip of the matrix with the N weights would stop after column 0)
         ("R-DATA-WEIGHT-ONCE", rp2.rule_data_weight_once, {}),
         ("R-ROW-SCALING", rp2.rule_row_scaling, {}),
+        # … and it can be built exactly when its single-column problems can: one weight per ROW, whatever the number of columns
+        ("R-PROBLEM-BUILD-TABLE", rp2.rule_problem_build_table, {}),
         ("R-VEC-COLMAJOR", rp.rule_vec_colmajor, {}),
         ("R-KAUFMAN-COL", rp2.rule_kaufman_col, {}),
         ("R-RESID-TERM", rp.rule_resid_term, {}),
@@ -316,6 +343,9 @@ PROPS["C18"] = {
 PROPS["C16"] = {
     "configs": ("default",),
     "rules": [
+        # "taken from the current parameter vector", "parameters set on the model are returned unchanged": the builder's value
+        # setters store what they are given (a later call overrides an earlier one)
+        ("R-MODEL-VALUE-SETTERS", _model_value_setters, {}),
         ("R-ARITY-SLOTS", rm.rule_arity_slots, {}),
         ("R-NAME-ROUTING", rm.rule_name_routing, {}),
         ("R-DERIV-KEY", rm.rule_deriv_key, {}),
